@@ -133,6 +133,7 @@ func propTable() map[string]*PropSpec {
 			c := rc(fmt.Sprintf("C02_Struct/signers=%d/warmup=1", k), ".", "C02_Struct", map[string]int{"signers": k, "warmup": 1})
 			c.RequireReach = []string{"C02.accepted_soft", "C02.accepted_strict"}
 			if k == 2 {
+				c.RequireReach = []string{"C02.accepted_soft"} // 2 of 4 equal members: above f, below the quorum
 				q = append(q, c)
 			}
 			th = append(th, c)
@@ -160,7 +161,7 @@ func propTable() map[string]*PropSpec {
 		}
 		t["C02"] = &PropSpec{ID: "C02", Quick: q, Thorough: th,
 			Assumptions: []string{"ideal signature registry (zzverifstub.Registry): a signature verifies exactly for the (signer, height, content bytes) it was made for", "block commitment stub: hash is the block's one-byte tag", "random-seed summaries: seed = the 8 signature bytes (injective), group signature = injective function of (height, seed)"},
-			Bounds:      []string{"committee of 4 (ids 1..4), symbolic 64-bit weights; structured proofs with 0..5 signers, every field symbolic (type tag 16 bit, instance/height/view 64 bit, hash 1 byte, signer ids 1 byte, signatures 8 bytes, per-signer validity symbolic), optionally preceded by an earlier call of the same validator with the same certificate in an arbitrary mode (2 signers quick, 2 and 3 thorough); arbitrary proof byte strings of length <= 12 (quick) / <= 24 (thorough)", "structured mutation: a genuine certificate of 1 (quick) / 1, 3, 4 (thorough) signers, equal concrete weights, with one 4-byte aligned window at a symbolic position replaced by a little-endian value below 64 or within 64 of 2^32 (no panic, also not from goroutines the validation might spawn)"},
+			Bounds:      []string{"committee of 4 (ids 1..4), symbolic 64-bit weights; structured proofs with 0..5 signers, every field symbolic (type tag 16 bit, instance/height/view 64 bit, hash 1 byte, signer ids 1 byte, signatures 8 bytes, per-signer validity symbolic), optionally preceded by an earlier call of the same validator with the same certificate in an arbitrary mode (equal concrete weights; 2 signers quick, 2 and 3 thorough); arbitrary proof byte strings of length <= 12 (quick) / <= 24 (thorough)", "structured mutation: a genuine certificate of 1 (quick) / 1, 3, 4 (thorough) signers, equal concrete weights, with one 4-byte aligned window at a symbolic position replaced by a little-endian value below 64 or within 64 of 2^32 (no panic, also not from goroutines the validation might spawn)"},
 			Outside:     []string{"arbitrary byte strings longer than 24 bytes; committees other than 4 members; hashes/ids longer than one byte"},
 		}
 	}
